@@ -13,6 +13,7 @@ CLAIM = (
     "a `return 0` writes nothing to stderr (ERR4); the front-end stage sequence equals the one of run.load_model."
     " SKIPS: the loops of the functions in scope have no more `continue`, `break` or in-loop `return` statements than the reference "
     "read on the unchanged tree (baselines/skips.json): a new skip means elements that were handled are no longer handled."
+    " EXIT-PROP (shared with C03): the exit status of the smoke run reaches the process through main()/entry_point() and the `__main__` block."
 )
 NOTE = "Trusted base: callee identification by resolved name. Not decided: equality of the report with the recorded expectations under dev/test_data/smoke."
 TECHNIQUE = "static analysis: must-pass-through and ordering on the CFG, exit-code/stream pairing, error-value discipline"
@@ -42,6 +43,9 @@ def run(ctx) -> None:
     for f in (ex, tr):
         err.check_err12(ctx, f, "ERR1", "ERR1v", "ERR2")
         err.check_err3(ctx, f, "ERR3")
+    ctx.rule("EXIT-PROP", "the exit status computed by execute() reaches the process: main()/entry_point() return it and every `__main__` block hands it to sys.exit (shared with C03)", floor=5)
+    from . import c03 as _c03
+    _c03._check_exit_propagation(ctx)
     ctx.rule("SKIPS", "the loops of the functions in scope have no more continue/break/return-in-loop statements than the reference read on the unchanged tree", floor=1)
     from ..rules import skips as _skips
     _base = _skips.load_baseline()
